@@ -543,6 +543,12 @@ def rule_los(ctx):
     if len(north) != 1:
         raise AnalysisError("cartposlos2geocentric: northward rate not identified (%s)" % north)
     N = north[0]
+    if N not in rate:
+        # the rate of the selected elements kept in a temporary that is also stored into the full-shape array: X[sel] = N
+        into = [norm(st.targets[0].value) for st in body if isinstance(st, ast.Assign) and isinstance(st.targets[0], ast.Subscript)
+                and isinstance(st.value, ast.Name) and st.value.id == N and norm(st.targets[0].value) in rate]
+        if len(into) == 1:
+            N = str(into[0])
     E = [v for v in rate if v != N]
     if len(E) > 1:
         raise AnalysisError("cartposlos2geocentric: masks depend on %s" % rate)
